@@ -58,9 +58,22 @@ def errCheck (f : Function) : String :=
   if f.dstVarStyle == .ret && f.dst.pointer then "if err != nil {\nreturn nil, err\n}\n"
   else "if err != nil {\nreturn\n}\n"
 
-/-- `AssignmentToString` -/
-def assignmentToString (f : Function) (a : Assignment) : String :=
-  a.render ++ (if a.retError then errCheck f else "")
+mutual
+/-- `AssignmentToString`: the statement followed by its error check; inside a nested struct block
+every statement gets its check as well (`nestStructToString`) -/
+def assignmentToString (f : Function) : Assignment → String
+  | .nestStruct initExpr nullCheckExpr contents =>
+      renderNest initExpr nullCheckExpr (assignmentToStringList f contents)
+  | .skipField lhs => renderSkip lhs
+  | .noMatchField lhs => renderNoMatch lhs
+  | .simpleField lhs rhs error => renderSimple lhs rhs error ++ (if error then errCheck f else "")
+  | .sliceAssignment lhs rhs typ => renderSlice lhs rhs typ
+  | .sliceLoopAssignment lhs rhs typ => renderSliceLoop lhs rhs typ
+  | .sliceTypecastAssignment lhs rhs typ cast => renderSliceCast lhs rhs typ cast
+def assignmentToStringList (f : Function) : List Assignment → String
+  | [] => ""
+  | c :: cs => assignmentToString f c ++ assignmentToStringList f cs
+end
 
 /-- how an operand `v` is passed to a hook that declares it by pointer (`isPtr`) or by value -/
 def hookArg (v : Var) (isPtr : Bool) : String :=
